@@ -82,9 +82,9 @@ theorem idOfP_set_self (pool : List Acc) (k : Nat) (x : Acc) (h : k < pool.lengt
 theorem updateIDs_id (a : Acc) : a.updateIDs.id = a.id := rfl
 
 theorem updateIDs_seq (a : Acc) :
-    flatIds a.updateIDs.svcs = List.range' a.idCount (size a.updateIDs.svcs) ∧
-    a.updateIDs.idCount = a.idCount + size a.svcs := by
-  have hs : size (assignSvcs a.idCount a.svcs).1 = size a.svcs := size_eq_of_shape (assignSvcs_shape _ _)
+    flatIds a.updateIDs.svcs = List.range' 1 (size a.updateIDs.svcs) ∧
+    a.updateIDs.idCount = 1 + size a.svcs := by
+  have hs : size (assignSvcs 1 a.svcs).1 = size a.svcs := size_eq_of_shape (assignSvcs_shape _ _)
   refine ⟨?_, ?_⟩
   · simp only [Acc.updateIDs, assignSvcs_flat, hs]
   · simp only [Acc.updateIDs, assignSvcs_snd]
@@ -141,7 +141,7 @@ theorem Inv_add_core (m : Container) (k : Nat) (a a2 : Acc) (cnt : Nat) (h : Inv
     rcases List.mem_or_eq_of_mem_set hx with hx | hx
     · exact h.poolCnt x hx
     · rw [hx, ha2cnt, (updateIDs_seq a).2]
-      have := h.poolCnt a (List.mem_of_getElem? hk); omega
+      omega
   have hseq : ∀ j, (j ∈ m.accs ∨ j = k) → ∀ x, (m.pool.set k a2)[j]? = some x →
       ∃ c, 1 ≤ c ∧ flatIds x.svcs = List.range' c (size x.svcs) := by
     intro j hj x hx
@@ -149,7 +149,7 @@ theorem Inv_add_core (m : Container) (k : Nat) (a a2 : Acc) (cnt : Nat) (h : Inv
     · subst hjk
       rw [List.getElem?_set_self hlt] at hx
       cases hx
-      refine ⟨a.idCount, h.poolCnt a (List.mem_of_getElem? hk), ?_⟩
+      refine ⟨1, Nat.le_refl 1, ?_⟩
       rw [ha2svcs]; exact (updateIDs_seq a).1
     · rw [List.getElem?_set_ne (Ne.symm hjk)] at hx
       rcases hj with hj | hj
